@@ -290,7 +290,7 @@ def tlc(module, cfg=None, workers=None, simulate=None, depth=None, coverage=Fals
     cmd = ["java", "-XX:+UseParallelGC", "-Xss" + xss, "-Xmx" + xmx]
     if dfs:
         cmd.append("-Dtlc2.tool.queue.IStateQueue=StateDeque")
-    cmd += ["-cp", TLA_CP, "tlc2.TLC", "-metadir", meta, "-config", cfg + ".cfg" if not cfg.endswith(".cfg") else cfg]
+    cmd += ["-cp", TLA_CP, "tlc2.TLC", "-noGenerateSpecTE", "-metadir", meta, "-config", cfg + ".cfg" if not cfg.endswith(".cfg") else cfg]
     cmd += ["-workers", str(workers or NCPU)]
     if simulate:
         cmd += ["-simulate", "num=%d" % simulate]
